@@ -675,6 +675,18 @@ func (d *dealer) syncMatchProcedure(procedure wamp.URI) (*registration, bool) {
 func (d *dealer) syncCall(caller *wamp.Session, msg *wamp.Call) {
 	reg, ok := d.syncMatchProcedure(msg.Procedure)
 	if !ok || len(reg.callees) == 0 {
+		// A further CALL message of a pending progressive call ends that call
+		// when it is refused: the ERROR below is the call's final reply, so
+		// nothing the callee still yields may reach the caller after it.
+		pendingID := requestID{session: caller.ID, request: msg.Request}
+		if invkID, pending := d.invocationByCall[pendingID]; pending {
+			if invk, found := d.invocations[invkID]; found && invk.timerCancel != nil {
+				invk.timerCancel()
+			}
+			delete(d.invocations, invkID)
+			delete(d.invocationByCall, pendingID)
+			delete(d.calls, pendingID)
+		}
 		// If no registered procedure, send error.
 		d.trySend(caller, &wamp.Error{
 			Type:    msg.MessageType(),
